@@ -174,6 +174,9 @@ class Ctx:
             return None
         t0 = time.time()
         res = vf.run_both(self.bdir, cases, name, timeout=timeout, model=model, keys=keys, retain=retain)
+        if os.environ.get('VERIF_MEMLOG'):
+            import resource
+            sys.stderr.write('MEMLOG %s after %s: maxrss %d MB\n' % (self.pid, name, resource.getrusage(resource.RUSAGE_SELF).ru_maxrss // 1024))
         if not verdict:
             self.extra.setdefault('diagnostics', {})[name] = {'cases': res['n'], 'compared_tokens': res['compared_tokens'],
                                                                'mismatches': len(res['mismatches']), 'crashes': len(res['crashes']),
